@@ -167,7 +167,7 @@ def parse_trace(out):
 
 def schedule_of_trace(steps):
     """Channel-style labels Step("W1") / Fault("S1") / CtxCancel("W1") -> [[kind, proc]]."""
-    kinds = {"Step": "step", "Fault": "fault", "CtxCancel": "cancel", "ParentCancel": "pcancel"}
+    kinds = {"Step": "step", "Fault": "fault", "CtxCancel": "cancel", "ParentCancel": "pcancel", "PoolUser": "pooluser", "Scribble": "scribble"}
     out = []
     for s in steps:
         if s["action"] in kinds:
